@@ -183,6 +183,9 @@ func dumpEngine(p *Program, what string) {
 					fmt.Println("==", funcID(f), why)
 					for _, x := range ps {
 						fmt.Println("   [", x.pcKey(), "] =>", x.resKey(), x.panics)
+						for _, ef := range x.effects {
+							fmt.Println("        effect:", ef.path, ":=", ef.val)
+						}
 					}
 				}
 			}
